@@ -147,7 +147,7 @@ def run(chk):
     pool = [r for r in mx if not r.get("oracle_only")]
     nh, hl = (60, 25) if not full else (600, 30)
     for k in range(nh):
-        plans.append((objs, files, k % 5 == 4, CS.random_history(rng, pool, hl), False))
+        plans.append((objs, files, k % 5 == 4, CS.random_history(rng, pool, hl, k % 5 == 4), False))
     for (label, backed, reqs, oracle_only) in CS.scenarios():
         plans.append(([], [], backed, reqs, False, not oracle_only))
     n = run_cases(chk, srv, ex, plans, "C11")
